@@ -11,6 +11,7 @@ Line-protocol driver for C13 (fields separated by single spaces; byte strings in
   VK root k blob,blob        VerifyProof against blobs keyed by Keccak    -> val:<hex> | absent | err | crash
   SU k v / SG k              SecureTrie Update/Get (key hashed first)
   CODEC k probe,probe        instance check of the codec hypothesis of proof_complete_partial on the path of k -> ok | fail
+  SR k:v;k:v;...             specRoot (Spec.lean) of the given content (byte keys)  -> <hex32>
   DS item,item,...           types.DeriveSha                              -> <hex32>
   KEC data                   Keccak-256                                   -> <hex32>
   DBRESET | DBNEW            fresh trie.Database (DBNEW keeps the disk)           -> ok
@@ -22,6 +23,7 @@ Line-protocol driver for C13 (fields separated by single spaces; byte strings in
 import YouVerif.C13.Model
 import YouVerif.C13.ModelHash
 import YouVerif.C13.ModelDb
+import YouVerif.C13.Spec
 import YouVerif.Common.Hex
 import YouVerif.Common.Keccak
 open YouVerif.Common YouVerif.C13
@@ -136,6 +138,17 @@ def step (t : Node) (line : String) : Node × String :=
     | some k, some probes =>
       (t, if codecHoldsOnPath K t (hexKey k) (probes.map hexKey) then "ok" else "fail")
     | _, _ => (t, "bad-op")
+  | ["SR", pairs] =>
+    let ps := (splitNE pairs ";").mapM fun e =>
+      match e.splitOn ":" with
+      | [k, v] => do
+        let k ← hx k
+        let v ← hx v
+        pure (hexKey k, v)
+      | _ => none
+    match ps with
+    | some ps => (t, hexOfList (specRoot K ps))
+    | none => (t, "bad-op")
   | ["DS", items] =>
     match (splitNE items ",").mapM hx with
     | some items => (t, hexOfList (deriveSha K items))
